@@ -879,3 +879,117 @@ def c03_8(I, shape):
             "receive-limits-inside-own-settings")
     I.check(AND(c._recv_record_limit >= 63, s._recv_record_limit >= 63),
             "limits-not-below-the-protocol-minimum")
+
+
+# ---------------------------------------------------------------------------
+# C03.9  the peer's certificate key lies inside the own settings
+# ---------------------------------------------------------------------------
+from models.conn import conn_proxies, make_conn
+from tlslite.errors import TLSLocalAlert as _TLSLocalAlert
+
+
+def _shapes_c03_9(tier):
+    out = []
+    for version in ((3, 3), (3, 4)):
+        for ct in ("rsa", "rsa-pss", "dsa", "ecdsa", "Ed25519"):
+            out.append(dict(version=list(version), cert_type=ct))
+    return out
+
+
+class _PolicyKey(object):
+    def __init__(self, bits, curve=None):
+        self.bits = bits
+        self.curve_name = curve
+
+    def __len__(self):
+        return self.bits
+
+
+class _PolicyChain(object):
+    def __init__(self, cert_type, key):
+        class _C(object):
+            certAlg = cert_type
+        self.x509List = [_C()]
+        self.key = key
+
+    def getEndEntityPublicKey(self):
+        return self.key
+
+    def getNumCerts(self):
+        return 1
+
+
+@obligation("C03.9", _shapes_c03_9,
+            functions=["tlslite.tlsconnection:TLSConnection."
+                       "_check_certchain_with_settings"],
+            assumes=["the peer chain is a stub reporting a certificate "
+                     "algorithm (per shape), a key length picked from "
+                     "{512, 1023, 1024, 2048, 3072, 4096, 8192, 16385} and, "
+                     "for ECDSA, a curve picked from the library's curve "
+                     "names; settings.minKeySize / maxKeySize are symbolic "
+                     "integers with 512 <= min <= max <= 16384; eccCurves, "
+                     "ecdsaSigHashes and more_sig_schemes are picked "
+                     "sub-lists"],
+            patches=lambda s: (conn_proxies(), []), max_paths=4000)
+def c03_9(I, shape):
+    """a peer certificate is accepted exactly when its key size lies inside
+    [minKeySize, maxKeySize] (RSA, RSA-PSS, DSA), its curve is enabled
+    (ECDSA) or its algorithm is enabled (EdDSA); otherwise a fatal alert is
+    sent"""
+    version = tuple(shape["version"])
+    ct = shape["cert_type"]
+    st = HandshakeSettings().validate()
+    lo = I.int_range(512, 16384, "minKeySize")
+    hi = I.int_range(512, 16384, "maxKeySize")
+    assume(lo <= hi)
+    st.minKeySize, st.maxKeySize = lo, hi
+    bits = I.pick([512, 1023, 1024, 2048, 3072, 4096, 8192, 16385], "bits")
+    curve = None
+    if ct == "ecdsa":
+        curve = I.pick(["secp256r1", "secp384r1", "secp521r1", "secp224r1",
+                        "brainpoolP256r1", "NIST256p"], "curve")
+        st.eccCurves = I.pick([["secp256r1"], ["secp384r1", "secp521r1"],
+                               ["secp256r1", "secp384r1", "secp521r1",
+                                "brainpoolP256r1"]], "eccCurves")
+        st.ecdsaSigHashes = I.pick([["sha256"], ["sha384", "sha512"],
+                                    ["sha256", "sha384", "sha512"]],
+                                   "ecdsaSigHashes")
+    if ct == "Ed25519":
+        st.more_sig_schemes = I.pick([[], ["Ed25519"], ["Ed448"]],
+                                     "more_sig_schemes")
+    conn, sock = make_conn(version, True, [])
+    chain = _PolicyChain(ct, _PolicyKey(bits, curve))
+    try:
+        res = None
+        for res in conn._check_certchain_with_settings(chain, st):
+            pass
+        ok = True
+    except _TLSLocalAlert as e:
+        ok = False
+        alert = e
+    sent = split_records(sock.out)
+    if not ok:
+        I.check(len(sent) == 1 and sent[0][0] == ContentType.alert,
+                "refusal-sends-a-fatal-alert")
+    if ct in ("rsa", "rsa-pss", "dsa"):
+        I.check(IFF(ok, AND(lo <= bits, bits <= hi)),
+                "key-size-accepted-iff-inside-min-max",
+                detail=lambda: dict(bits=bits, cert_type=ct))
+    elif ct == "ecdsa":
+        name = "secp256r1" if curve == "NIST256p" else curve
+        if version <= (3, 3):
+            I.check(ok == (name in st.eccCurves),
+                    "curve-accepted-iff-enabled",
+                    detail=lambda: dict(curve=curve, enabled=st.eccCurves))
+        else:
+            need = {"secp256r1": "sha256", "secp384r1": "sha384",
+                    "secp521r1": "sha512",
+                    "brainpoolP256r1": "sha256"}.get(name)
+            I.check(ok == (need is not None and need in st.ecdsaSigHashes),
+                    "tls13-curve-accepted-iff-its-hash-enabled",
+                    detail=lambda: dict(curve=curve,
+                                        hashes=st.ecdsaSigHashes))
+    else:
+        I.check(ok == ("Ed25519" in st.more_sig_schemes and
+                       version >= (3, 3)),
+                "eddsa-accepted-iff-enabled")
